@@ -1,11 +1,339 @@
-/- C18 — executable model (stub; filled in by the property's owner). -/
+/-
+C18 — executable model of `mahotas/_interpolate.cpp` (`spline_coefficients`, `zoom_shift`,
+`spline_filter1d`) and of the Python glue in `interpolate.py` / `resize.py`, as they are on the
+repaired tree (coordinates inside `[0, len-1]` keep their fractional part, the border rule is applied
+to the nearest sample position of coordinates outside, start index `order odd ? floor x : floor (x+1/2)`).
+
+The algebraic layer (B-spline weights, coordinate maps, start index, tensor-product sum) is written
+once, polymorphic in the scalar type: the driver *runs* it at `Float`, `Proofs/C18.lean` and
+`Properties/C18.lean` *prove* facts about the same definitions over ordered fields.  `floor` is a
+parameter (`fl : α → Int`): `Float.floor` in the driver, `Int.floor` in the theorems.
+The recursive prefilter uses `sqrt/log/pow` and is modelled at `Float` only.
+-/
 import Mahotas.Model.Border
 import Mahotas.Model.DType
 namespace Mahotas.C18
 open Mahotas
 
+/-! ## polymorphic layer -/
+section Poly
+variable {α : Type} [Add α] [Sub α] [Mul α] [Div α] [Neg α] [NatCast α] [IntCast α] [LT α] [DecidableLT α]
+
+/-- the rational constant `a/b` (`a`, `b` small naturals, so the quotient is the correctly rounded
+    double the C literal denotes) -/
+@[inline] def q (a b : Nat) : α := (a : α) / (b : α)
+
+/-- `fabs` -/
+def absV (y : α) : α := if y < ((0 : Nat) : α) then -y else y
+
+/-- one B-spline weight as a function of the distance `y ≥ 0` to the knot: the `switch(order)` body
+    of `spline_coefficients`, literally (orders 1–5; anything else gives 0). -/
+def splineCoeff (order : Nat) (y : α) : α :=
+  match order with
+  | 1 => if ((1 : Nat) : α) < y then ((0 : Nat) : α) else ((1 : Nat) : α) - y
+  | 2 =>
+    if y < q 1 2 then q 3 4 - y * y
+    else if y < q 3 2 then
+      let z : α := q 3 2 - y
+      q 1 2 * z * z
+    else ((0 : Nat) : α)
+  | 3 =>
+    if y < ((1 : Nat) : α) then (y * y * (y - ((2 : Nat) : α)) * ((3 : Nat) : α) + ((4 : Nat) : α)) / ((6 : Nat) : α)
+    else if y < ((2 : Nat) : α) then
+      let z : α := ((2 : Nat) : α) - y
+      z * z * z / ((6 : Nat) : α)
+    else ((0 : Nat) : α)
+  | 4 =>
+    if y < q 1 2 then
+      let z : α := y * y
+      z * (z * q 1 4 - q 5 8) + q 115 192
+    else if y < q 3 2 then
+      y * (y * (y * (q 5 6 - y / ((6 : Nat) : α)) - q 5 4) + q 5 24) + q 55 96
+    else if y < q 5 2 then
+      let z : α := y - q 5 2
+      let z2 : α := z * z
+      z2 * z2 / ((24 : Nat) : α)
+    else ((0 : Nat) : α)
+  | 5 =>
+    if y < ((1 : Nat) : α) then
+      let f : α := y * y
+      f * (f * (q 1 4 - y / ((12 : Nat) : α)) - q 1 2) + q 11 20
+    else if y < ((2 : Nat) : α) then
+      y * (y * (y * (y * (y / ((24 : Nat) : α) - q 3 8) + q 5 4) - q 7 4) + q 5 8) + q 17 40
+    else if y < ((3 : Nat) : α) then
+      let f : α := ((3 : Nat) : α) - y
+      let z : α := f * f
+      f * z * z / ((120 : Nat) : α)
+    else ((0 : Nat) : α)
+  | _ => ((0 : Nat) : α)
+
+/-- index of the first of the `order+1` knots used at coordinate `x`
+    (`order & 1 ? floor(x) : floor(x + 0.5)`, minus `order/2`), computed identically in
+    `spline_coefficients` and in `zoom_shift`. -/
+def startIdx (fl : α → Int) (order : Nat) (x : α) : Int :=
+  (if order % 2 = 1 then fl x else fl (x + q 1 2)) - ((order / 2 : Nat) : Int)
+
+/-- the `order+1` weights of `spline_coefficients(x, order, ·)` -/
+def weights (fl : α → Int) (order : Nat) (x : α) : List α :=
+  (List.range (order + 1)).map fun h =>
+    splineCoeff order (absV (((startIdx fl order x : Int) : α) - x + ((h : Nat) : α)))
+
+/-- `std_like_round` followed by the cast to `npy_intp` (`ceil z = -floor (-z)`) -/
+def roundI (fl : α → Int) (v : α) : Int :=
+  if ((0 : Nat) : α) < v then fl (v + q 1 2) else -(fl (-(v - q 1 2)))
+
+/-- output index → input coordinate: `cc = kk; if (shifts) cc += shift; if (zooms) cc *= zoom` -/
+def coord (kk : Nat) (shift zoom : Option α) : α :=
+  let c : α := (kk : α)
+  let c := match shift with | some s => c + s | none => c
+  match zoom with | some z => c * z | none => c
+
+/-- the border handling of `zoom_shift`: a coordinate inside `[0, len-1]` is kept as it is; one
+    outside goes, rounded to the nearest sample position, through `fix_offset`
+    (`none` = `border_flag_value`: the output pixel receives `cval`). -/
+def mapCoord (fl : α → Int) (m : Mode) (len : Nat) (cc : α) : Option α :=
+  if cc < ((0 : Nat) : α) ∨ (((len : Int) - 1 : Int) : α) < cc then
+    match fixOffset m (roundI fl cc) len with
+    | some i => some (i : α)
+    | none => none
+  else some cc
+
+/-- the mirror folding of the knots that stick out of the array (`edge_offsets`): the arithmetic is,
+    line for line, that of `fix_offset(ExtendMirror, ·)`; inside `[0,len)` it is the identity, which
+    is why the code only applies it when `start < 0 || start + order >= len`. -/
+def edgeFold (len : Nat) (idx : Int) : Int := (fixOffset .mirror idx len).getD 0
+
+/-- what `zoom_shift` precomputes for one output index along one axis:
+    `none` (flagged: the pixel gets `cval`) or the folded knot indices with their weights. -/
+def axisEntry (fl : α → Int) (order : Nat) (m : Mode) (len : Nat) (cc : α) : Option (List Int × List α) :=
+  match mapCoord fl m len cc with
+  | none => none
+  | some c =>
+    let start := startIdx fl order c
+    some ((List.range (order + 1)).map (fun h => edgeFold len (start + (h : Nat))), weights fl order c)
+
+/-- all knot tuples with their per-axis weights, first axis slowest (the order of `fcoordinates`) -/
+def tensorTerms : List (List Int × List α) → List (List Int × List α)
+  | [] => [([], [])]
+  | (idx, w) :: rest =>
+    (idx.zip w).flatMap fun iw => (tensorTerms rest).map fun pw => (iw.1 :: pw.1, iw.2 :: pw.2)
+
+/-- `t = 0; for fi: coeff = data[idx]; for r: coeff *= splvals[r][..]; t += coeff` -/
+def tensorSum (zero : α) (sample : List Int → α) (entries : List (List Int × List α)) : α :=
+  (tensorTerms entries).foldl (fun t pw => t + pw.2.foldl (· * ·) (sample pw.1)) zero
+
+/-- one output pixel of `zoom_shift` -/
+def pixel (fl : α → Int) (order : Nat) (m : Mode) (cval : α) (im : Img α)
+    (shifts zooms : List (Option α)) (p : List Int) : α :=
+  let rec go : List Nat → List Int → List (Option α) → List (Option α) → Option (List (List Int × List α))
+    | len :: ls, kk :: ks, s :: ss, z :: zs =>
+      match axisEntry fl order m len (coord kk.toNat s z), go ls ks ss zs with
+      | some e, some es => some (e :: es)
+      | _, _ => none
+    | _, _, _, _ => some []
+  match go im.shape p shifts zooms with
+  | none => cval
+  | some entries => tensorSum ((0 : Nat) : α) (fun pos => im.getD pos ((0 : Nat) : α)) entries
+
+/-- `zoom_shift` -/
+def zoomShift (fl : α → Int) (order : Nat) (m : Mode) (cval : α) (im : Img α)
+    (shifts zooms : List (Option α)) (oshape : List Nat) : Img α :=
+  Img.tabulate oshape (pixel fl order m cval im shifts zooms)
+
+/-- `interpolate.zoom`: factor `(n_in − 1)/(n_out − 1)`, replaced by 1 when it is not finite -/
+def zoomFactor (nin nout : Nat) : α :=
+  if nout = 1 then ((1 : Nat) : α) else (((nin : Int) - 1 : Int) : α) / (((nout : Int) - 1 : Int) : α)
+
+/-- `interpolate.shift` after the optional prefilter: `shift *= -1`, then `zoom_shift` onto the input's shape -/
+def shiftGlue (fl : α → Int) (order : Nat) (m : Mode) (cval : α) (im : Img α) (shift : List α) : Img α :=
+  zoomShift fl order m cval im (shift.map fun s => some (-s)) (shift.map fun _ => none) im.shape
+
+/-- `interpolate.zoom(out=array of shape oshape)` after the optional prefilter -/
+def zoomGlue (fl : α → Int) (order : Nat) (m : Mode) (cval : α) (im : Img α) (oshape : List Nat) : Img α :=
+  zoomShift fl order m cval im (oshape.map fun _ => none)
+    ((im.shape.zip oshape).map fun io => some (zoomFactor io.1 io.2)) oshape
+
+/-! ### specification (the statement's words)
+
+Along one axis, for the coordinate `cc` an output index maps to:
+* `cc` an integer (anywhere): the sample at the position the border rule (`borderSpec`, the
+  mathematical definition, not `fix_offset`) assigns to it, or `cval`;
+* order 1 and `0 ≤ cc ≤ len−1`: linear interpolation of the two neighbours;
+* otherwise the statement fixes no closed form (`none`; the chain
+  "prefilter reproduces the samples" + "value = B-spline expansion at `cc`" is checked instead). -/
+inductive SpecAxis (α : Type) | unspecified | cval | knots (l : List (Int × α))
+
+def specAxis (fl : α → Int) (order : Nat) (m : Mode) (len : Nat) (cc : α) : SpecAxis α :=
+  let i := fl cc
+  let isInt : Bool := ¬ (cc < (i : α)) ∧ ¬ ((i : α) < cc)
+  if isInt then
+    match borderSpec m i len with
+    | some j => .knots [(j, ((1 : Nat) : α))]
+    | none => .cval
+  else if order = 1 ∧ ¬ (cc < ((0 : Nat) : α)) ∧ ¬ ((((len : Int) - 1 : Int) : α) < cc) then
+    let t : α := cc - (i : α)
+    .knots [(i, ((1 : Nat) : α) - t), (i + 1, t)]
+  else .unspecified
+
+/-- nested (mathematical) tensor-product sum -/
+def specSum (sample : List Int → α) : List (List (Int × α)) → List Int → α
+  | [], pos => sample pos.reverse
+  | ax :: rest, pos => ax.foldl (fun t iw => t + iw.2 * specSum sample rest (iw.1 :: pos)) ((0 : Nat) : α)
+
+def specPixel (fl : α → Int) (order : Nat) (m : Mode) (cval : α) (im : Img α)
+    (shifts zooms : List (Option α)) (p : List Int) : Option α :=
+  let rec go : List Nat → List Int → List (Option α) → List (Option α) → Option (Option (List (List (Int × α))))
+    | len :: ls, kk :: ks, s :: ss, z :: zs =>
+      match specAxis fl order m len (coord kk.toNat s z), go ls ks ss zs with
+      | .unspecified, _ => none
+      | _, none => none
+      | .cval, some _ => some none
+      | .knots _, some none => some none
+      | .knots l, some (some es) => some (some (l :: es))
+    | _, _, _, _ => some (some [])
+  match go im.shape p shifts zooms with
+  | none => none
+  | some none => some cval
+  | some (some axes) => some (specSum (fun pos => im.getD pos ((0 : Nat) : α)) axes [])
+
+/-! ### the recursive prefilter, one pole
+
+`spline_filter1d` runs, for every pole `z`, a causal pass `c⁺[k] = s[k] + z·c⁺[k−1]` (from an initial value
+`c⁺[0]` that is a — possibly truncated — geometric sum) and an anti-causal pass
+`c⁻[n−1] = z/(z²−1)·(c⁺[n−1] + z·c⁺[n−2])`, `c⁻[k] = z·(c⁻[k+1] − c⁺[k])`. -/
+
+/-- causal pass from a given first value -/
+def causal (z c0 : α) (s : Nat → α) : Nat → α
+  | 0 => c0
+  | k + 1 => s (k + 1) + z * causal z c0 s k
+
+/-- anti-causal pass, counted from the end: `anticausalRev … j = c⁻[n−1−j]` -/
+def anticausalRev (z : α) (n : Nat) (cp : Nat → α) : Nat → α
+  | 0 => (z / (z * z - ((1 : Nat) : α))) * (cp (n - 1) + z * cp (n - 2))
+  | j + 1 => z * (anticausalRev z n cp j - cp (n - 2 - j))
+
+/-- both passes for one pole on a line of length `n ≥ 2` -/
+def onePole (z c0 : α) (n : Nat) (s : Nat → α) (k : Nat) : α :=
+  anticausalRev z n (causal z c0 s) (n - 1 - k)
+
+end Poly
+
+/-! ## `Float` instance and the prefilter -/
+
+local instance : NatCast Float := ⟨Float.ofNat⟩
+local instance : IntCast Float := ⟨Float.ofInt⟩
+
+def flF (x : Float) : Int := (Float.floor x).toInt64.toInt
+
+/-- `init_poles` -/
+def poles (order : Nat) : List Float :=
+  match order with
+  | 2 => [Float.sqrt 8.0 - 3.0]
+  | 3 => [Float.sqrt 3.0 - 2.0]
+  | 4 => [Float.sqrt (664.0 - Float.sqrt 438976.0) + Float.sqrt 304.0 - 19.0,
+          Float.sqrt (664.0 + Float.sqrt 438976.0) - Float.sqrt 304.0 - 19.0]
+  | 5 => [Float.sqrt (67.5 - Float.sqrt 4436.25) + Float.sqrt 26.25 - 6.5,
+          Float.sqrt (67.5 + Float.sqrt 4436.25) - Float.sqrt 26.25 - 6.5]
+  | _ => []
+
+def poleWeight (ps : List Float) : Float :=
+  ps.foldl (fun w p => w * ((1.0 - p) * (1.0 - 1.0 / p))) 1.0
+
+/-- number of terms after which the causal initialisation sum is cut (`log_tolerance = log(1e-15)`) -/
+def cutLen (p : Float) : Int := (Float.ceil (Float.log 1e-15 / Float.log (Float.abs p))).toInt64.toInt
+
+/-- one line of `spline_filter1d` (`len ≥ 2`) -/
+def filterLine (order : Nat) (line0 : Array Float) : Array Float := Id.run do
+  let len := line0.size
+  if len ≤ 1 then return line0
+  let ps := poles order
+  let w := poleWeight ps
+  let mut line := line0.map (· * w)
+  for p in ps do
+    let mx := cutLen p
+    if mx < (len : Int) then
+      let mut zn := p
+      let mut sum := line[0]!
+      for ll in [1:mx.toNat] do
+        sum := sum + zn * line[ll]!
+        zn := zn * p
+      line := line.set! 0 sum
+    else
+      let mut zn := p
+      let iz := 1.0 / p
+      let mut z2n := Float.pow p (Float.ofNat (len - 1))
+      let mut sum := line[0]! + z2n * line[len - 1]!
+      z2n := z2n * (z2n * iz)
+      for ll in [1:len - 1] do
+        sum := sum + (zn + z2n) * line[ll]!
+        zn := zn * p
+        z2n := z2n * iz
+      line := line.set! 0 (sum / (1.0 - zn * zn))
+    -- the two recursions (the polymorphic `onePole`, about which `Properties/C18.lean` speaks)
+    let cur := line
+    line := (Array.range len).map (onePole p cur[0]! len (fun k => cur[k]!))
+  return line
+
+/-- was the initialisation sum cut short on a line of this length? (then the coefficients reproduce
+    the samples to about `1e-15` relative instead of to rounding) -/
+def truncated (order len : Nat) : Bool :=
+  len > 1 && (poles order).any fun p => cutLen p < (len : Int)
+
+/-- `spline_filter1d` along `axis` -/
+def filterAxis (order : Nat) (im : Img Float) (axis : Nat) : Img Float := Id.run do
+  let len := im.shape.getD axis 1
+  if len ≤ 1 then return im
+  let stride := shapeSize (im.shape.drop (axis + 1))
+  let mut data := im.data
+  for i in [0:im.size] do
+    if (i / stride) % len = 0 then
+      let line := filterLine order ((Array.range len).map fun k => data[i + k * stride]!)
+      for k in [0:len] do
+        data := data.set! (i + k * stride) line[k]!
+  return { im with data := data }
+
+/-- `interpolate.spline_filter` -/
+def splineFilter (order : Nat) (im : Img Float) : Img Float :=
+  if order ≤ 1 then im else (List.range im.shape.length).foldl (filterAxis order) im
+
+/-! ## driver -/
+
+def showOptFloats (xs : List (Option Float)) : String :=
+  ",".intercalate (xs.map fun | some f => toString f.toBits.toNat | none => "u")
+
 def handle (a : Args) : String :=
+  let shape := a.nats "shape"
+  let im : Img Float := { shape := shape, data := (a.floats "data").toArray }
+  let order := a.nat "order" 1
   match a.str "kind" with
+  | "sf" =>
+    let r := splineFilter order im
+    s!"model={showFloats r.data.toList}"
+  | "bs" =>
+    -- B-spline expansion of the given coefficients at the sample points
+    let r := zoomShift flF order .mirror 0.0 im (shape.map fun _ => none) (shape.map fun _ => none) shape
+    s!"spec={showFloats r.data.toList}"
+  | "zs" =>
+    match Mode.ofCode (a.nat "mode") with
+    | none => "error=bad-mode"
+    | some m =>
+      let cval := (a.floats "cval").headD 0.0
+      let pre := a.nat "prefilter" 1 == 1
+      let coeffs := if pre then splineFilter order im else im
+      let trunc := pre && order > 1 && shape.any (truncated order)
+      let (shifts, zooms, oshape) :=
+        if a.has "shifts" then
+          ((a.floats "shifts").map fun s => some (-s), shape.map fun _ => (none : Option Float), shape)
+        else
+          let os := a.nats "oshape"
+          (os.map fun _ => (none : Option Float), (shape.zip os).map fun io => some (zoomFactor io.1 io.2), os)
+      let r := zoomShift flF order m cval coeffs shifts zooms oshape
+      -- the specification speaks about the *unfiltered* samples; without prefilter and order > 1 the
+      -- caller promises coefficients, and only the model applies
+      let spec : List (Option Float) :=
+        if order > 1 && !pre then (allPos oshape).map fun _ => none
+        else (allPos oshape).map (specPixel flF order m cval im shifts zooms)
+      s!"model={showFloats r.data.toList} spec={showOptFloats spec} trunc={if trunc then 1 else 0}"
   | k => s!"error=unknown-kind-{k}"
 
 end Mahotas.C18
